@@ -97,3 +97,52 @@ Theorem C06_append_equiv_binary64 : forall h vl fmt A evl Bs f0 f1, good_header 
   arun ap64 f0 Bs = Ok f1.
 Proof. exact append_equiv_binary64. Qed.
 Print Assumptions C06_append_equiv_binary64.
+
+(* ------------------------------------------------------------------------------------------------------------------ *)
+(* Round 5. THE CAPACITY OF THE FILE and REFUSED CALLS followed by re-use (Model/AppendCap.v, Proofs/CapacityProofs.v).                 *)
+(* ------------------------------------------------------------------------------------------------------------------ *)
+From LasV Require Import Model.AppendCap Proofs.CapacityProofs.
+
+(* the decision function the driver runs next to the implementation (sparse files announcing 2^32 - 1 - n points) *)
+Theorem C06_capacity_rule : forall maj mnr count n, takes_more maj mnr count n = true <-> count + n <= max_point_count maj mnr.
+Proof. exact takes_more_spec. Qed.
+Print Assumptions C06_capacity_rule.
+
+(* a non-empty chunk of the file's format is accepted EXACTLY when the total stays within the capacity of the version - a total equal to
+   the maximum is accepted -, and is then stored at the current position and counted; otherwise it is refused and nothing changes *)
+Theorem C06_capacity : forall ap s recs, recs <> [] ->
+  let maj := aint (a_h s) "version.major" in let mnr := aint (a_h s) "version.minor" in
+  (takes_more maj mnr (s_count (a_st s)) (len recs) = true ->
+     snd (apoints ap s recs true) = Ok tt
+     /\ s_count (a_st (fst (apoints ap s recs true))) = s_count (a_st s) + len recs
+     /\ a_file (fst (apoints ap s recs true)) = write_at (a_file s) (a_pos s) (concat recs)
+     /\ a_pos (fst (apoints ap s recs true)) = a_pos s + len (concat recs))
+  /\ (takes_more maj mnr (s_count (a_st s)) (len recs) = false -> apoints ap s recs true = (s, Err ELaspy)).
+Proof. exact append_accepts_iff. Qed.
+Print Assumptions C06_capacity.
+
+(* appending is refused exactly when the one-shot writer would refuse the total: at equal version and count both decide alike *)
+Theorem C06_capacity_same_rule : forall ap (s : astate) (w : wstate) recs, recs <> [] -> w_done w = false ->
+  aint (w_h w) "version.major" = aint (a_h s) "version.major" -> aint (w_h w) "version.minor" = aint (a_h s) "version.minor" ->
+  s_count (w_st w) = s_count (a_st s) ->
+  (snd (apoints ap s recs true) = Ok tt <-> snd (wstep ap w (WPoints recs true)) = Ok tt).
+Proof. exact capacity_same_rule. Qed.
+Print Assumptions C06_capacity_same_rule.
+
+(* any refused call (too many points, another point format) leaves the appender as it was ... *)
+Theorem C06_refused_unchanged : forall ap s recs same e, snd (apoints ap s recs same) = Err e -> fst (apoints ap s recs same) = s.
+Proof. exact append_refused_unchanged. Qed.
+Print Assumptions C06_refused_unchanged.
+
+(* ... so a session with refused calls in it - followed by the same record again, or a part of it that fits - yields the file of the
+   session made of the accepted chunks only (to which C06_append_equiv applies) *)
+Theorem C06_refused_calls_file : forall ap src s calls,
+  aopen src = Ok s -> aclose (acalls ap s calls) = arun ap src (taken ap s calls).
+Proof. exact refused_calls_file. Qed.
+Print Assumptions C06_refused_calls_file.
+
+(* non-vacuity: a 1.2 file announcing 2^32 - 4 points takes 3 more (reaching 2^32 - 1 exactly) and not 4; a 1.4 file takes them *)
+Example C06_capacity_example :
+  (takes_more 1 2 (2 ^ 32 - 4) 3, takes_more 1 2 (2 ^ 32 - 4) 4, takes_more 1 4 (2 ^ 32 - 4) 4, takes_more 1 2 (2 ^ 32 - 1) 1)
+  = (true, false, true, false).
+Proof. vm_compute. reflexivity. Qed.
